@@ -1,16 +1,16 @@
 (* AllRun.v -- the executable forms of the T2 invariants, evaluated together on one snapshot of the real engine by the
-   correspondence check (dispatch_model 36): L [cfg; state] -> L [A wfx; A cap; A clk; A svc; A srv; A idle; A rows; A blk; A who; A hzn], each 1 / 0.  On the initial
+   correspondence check (dispatch_model 36): L [cfg; state] -> L [A wfx; A cap; A clk; A svc; A srv; A idle; A rows; A blk; A who; A hzn; A cnt], each 1 / 0.  On the initial
    snapshot of a run they are the hypotheses of the run theorems; on later snapshots they are what those theorems promise. *)
 From Coq Require Import ZArith List Bool Lia.
 From CiwV Require Import Sx Prelude.
 From CiwV.Engine Require Import State Engine Codec.
-From CiwV.Inv Require Import Frame Conserve ConserveRun Capacity SysCap CapacityRun Clock Samples Servers NonIdle Route Blocking Horizon Journey.
+From CiwV.Inv Require Import Frame Conserve ConserveRun Capacity SysCap CapacityRun Clock Samples Servers NonIdle Route Blocking Horizon Journey HorizonCount.
 Import ListNotations.
 Open Scope Z_scope.
 
 Definition bit (b : bool) : sx := A (if b then 1 else 0).
 
-Definition invs_b (cf : config) (s : sim) : list bool := [wfx_b s; cap_b cf s; clk_b cf s; forallb svc_okb (inds s); srv_b cf s; ni_b cf s; rows_ok_b cf; blk_b cf s; who_b cf s; hzn_b cf s].
+Definition invs_b (cf : config) (s : sim) : list bool := [wfx_b s; cap_b cf s; clk_b cf s; forallb svc_okb (inds s); srv_b cf s; ni_b cf s; rows_ok_b cf; blk_b cf s; who_b cf s; hzn_b cf s; cinv_b cf s].
 
 Definition run_invs (inp : sx) : sx :=
   match inp with
@@ -23,12 +23,12 @@ Definition run_invs (inp : sx) : sx :=
   end.
 
 (* every bit is sound for the invariant it stands for *)
-Theorem invs_b_sound cf s : invs_b cf s = [true; true; true; true; true; true; true; true; true; true] ->
-  WFx [] s /\ (J cf s /\ Sysq cf s) /\ Clk cf s /\ SvcInv s /\ SrvInv cf s /\ NIInv cf s /\ rows_ok cf /\ Blk cf s /\ Who cf s /\ Hzn cf s.
+Theorem invs_b_sound cf s : invs_b cf s = [true; true; true; true; true; true; true; true; true; true; true] ->
+  WFx [] s /\ (J cf s /\ Sysq cf s) /\ Clk cf s /\ SvcInv s /\ SrvInv cf s /\ NIInv cf s /\ rows_ok cf /\ Blk cf s /\ Who cf s /\ Hzn cf s /\ CInv cf s.
 Proof.
-  unfold invs_b. intros H. injection H as H1 H2 H3 H4 H5 H6 H7 H8 H9 H10.
+  unfold invs_b. intros H. injection H as H1 H2 H3 H4 H5 H6 H7 H8 H9 H10 H11.
   split; [apply wfx_b_sound; exact H1|]. split; [apply cap_b_sound; exact H2|]. split; [apply clk_b_sound; exact H3|].
-  split; [exact H4|]. split; [apply srv_b_sound; exact H5|]. split; [apply ni_b_sound; exact H6|]. split; [apply rows_ok_b_sound; exact H7|]. split; [apply blk_b_sound; exact H8|]. split; [apply who_b_sound; exact H9|apply hzn_b_sound; exact H10].
+  split; [exact H4|]. split; [apply srv_b_sound; exact H5|]. split; [apply ni_b_sound; exact H6|]. split; [apply rows_ok_b_sound; exact H7|]. split; [apply blk_b_sound; exact H8|]. split; [apply who_b_sound; exact H9|]. split; [apply hzn_b_sound; exact H10|apply cinv_b_sound; exact H11].
 Qed.
 
 (* C03: the journey invariant on a real snapshot together with the REAL cumulative record history and the real arrival nodes:
